@@ -20,7 +20,7 @@ from vf.checks import c14
 SHARDS = {'quick': 16, 'thorough': 64}
 TIMEOUT = {'quick': 1500, 'thorough': 7200}
 MUST_HIT = ['EarlierObject.rechecked', 'Xsd.types-in-nested-package', 'Xsd.attribute-of-unsupported-data-type', 'Xsd.well-formed', 'Xsd.types', 'Xsd.classes', 'Xsd.after-edit', 'Xsd.cli-file',
-            'Xsd.enumerator-order', 'Xsd.real-model-edit', 'Xsd.xml-special-names']
+            'Xsd.enumerator-order', 'Xsd.real-model-edit', 'Xsd.xml-special-names', 'Xsd.class-owned-directly-by-a-component', 'Xsd.type-owned-directly-by-a-component']
 MUST_REACH = ['bridgepoint/gen_xsd_schema.py:build_schema', 'bridgepoint/gen_xsd_schema.py:build_component',
               'bridgepoint/gen_xsd_schema.py:build_class', 'bridgepoint/gen_xsd_schema.py:build_enum_type',
               'bridgepoint/gen_xsd_schema.py:build_user_type', 'bridgepoint/gen_xsd_schema.py:build_core_type',
@@ -145,7 +145,7 @@ def edit(rng, d):
     if k == 'add-udt':
         name = unique_name(d, 'U', rng)
         d.udts.append((name, rng.choice(('integer', 'string', 'Color', 'Count_t', 'void', 'inst_ref<Object>')),
-                       rng.choice(('pkg', 'comp', 'deep', 'comp2'))))
+                       rng.choice(('pkg', 'comp', 'deep', 'comp2', 'direct', 'direct2', 'direct-nested'))))
         return ('add-user-type', name)
     return None
 
@@ -181,8 +181,15 @@ def move(rng, d):
     if not free:
         return None
     c = rng.choice(free)
-    c.where = rng.choice([w for w in ('pkg', 'comp', 'comp2', 'nested', 'deep') if w != c.where])
+    c.where = rng.choice([w for w in ('pkg', 'comp') + bp.ISOLATED if w != c.where])
     return ('move', c.kl, c.where)
+
+
+def note_direct(ctx, d):
+    if any(c.where.startswith('direct') for c in d.classes):
+        ctx.hit('Xsd.class-owned-directly-by-a-component')
+    if any(w.startswith('direct') for _, _, w in d.enums + d.udts):
+        ctx.hit('Xsd.type-owned-directly-by-a-component')
 
 
 def one_diagram(ctx, rng, tmpdir):
@@ -199,8 +206,8 @@ def one_diagram(ctx, rng, tmpdir):
     if rng.random() < 0.5:
         # data types two package levels below the component: in scope, declared once
         ctx.hit('Xsd.types-in-nested-package')
-        d.enums.append(('Deep_Enum', ['D1', 'D2', 'D3'], 'deep'))
-        d.udts.append(('Deep_Count', rng.choice(('integer', 'Deep_Enum', 'Count_t')), 'deep'))
+        d.enums.append(('Deep_Enum', ['D1', 'D2', 'D3'], rng.choice(('deep', 'direct', 'direct-nested'))))
+        d.udts.append(('Deep_Count', rng.choice(('integer', 'Deep_Enum', 'Count_t')), rng.choice(('deep', 'direct', 'direct-nested'))))
     for c in d.classes:
         if rng.random() < 0.3:
             ctx.hit('Xsd.attribute-of-unsupported-data-type')
@@ -209,6 +216,7 @@ def one_diagram(ctx, rng, tmpdir):
         special_names(rng, d)
         ctx.hit('Xsd.xml-special-names')
     text = bp.build(d).rows.text(rng)
+    note_direct(ctx, d)
     root = generate(ctx, text, 'Comp')
     compare(ctx, d, root, 'generated')
     ctx.hit('Xsd.enumerator-order')
@@ -223,6 +231,7 @@ def one_diagram(ctx, rng, tmpdir):
             edits.append(e)
     if edits:
         text = bp.build(d).rows.text(rng)
+        note_direct(ctx, d)
         ctx.hit('Xsd.after-edit')
         compare(ctx, d, generate(ctx, text, 'Comp'), 'after edits %r' % (edits,))
         compare(ctx, d, generate(ctx, text, 'Other_Comp'), 'second component after edits %r' % (edits,), 'comp2')
